@@ -200,9 +200,20 @@ def step_case(case):
         return r
     torch.normal = wn
     try:
-        k = max(1, min(case.get('split', 1), n))
+        acc = case.get('accum', 1) if case['clipping'] != 'ghost' else 1
+        k = max(1, min(case.get('split', 1) if acc <= 1 else acc, n))
         bounds = [round(i * n / k) for i in range(k + 1)]
         chunks = [(bounds[i], bounds[i + 1]) for i in range(k) if bounds[i + 1] > bounds[i]]
+        if acc > 1:
+            # manual gradient accumulation: several backward passes, no zero_grad / step in between, then ONE step
+            opt.zero_grad()
+            for a, b in chunks:
+                crit(gsm(X[a:b]), T[a:b]).backward()
+            opt.step()
+            n_acc = len(chunks)
+            chunks = []
+        else:
+            n_acc = 1
         for ci, (a, b) in enumerate(chunks):       # physical batches of one logical batch (what BatchMemoryManager does)
             if len(chunks) > 1:
                 opt.signal_skip_step(do_skip=(ci < len(chunks) - 1))
@@ -238,11 +249,11 @@ def step_case(case):
             bad.append('%d noise tensors for %d parameters' % (len(rec), len(params)))
         else:
             exp = [e + z for e, z in zip(exp, rec)]
-    denom = case['B'] if case['red'] == 'mean' else 1
+    denom = case['B'] * n_acc if case['red'] == 'mean' else 1      # expected batch size x accumulated batches; no division for sum
     exp = [e / denom for e in exp]
     err = max(float((a - b).abs().max()) / (1.0 + float(b.abs().max())) for a, b in zip(released, exp))
     if err > 1e-8:
-        bad.append('released gradient differs from (sum_i min(1,C/(|g_i|+1e-6)) g_i + z)/B by rel. %.3g' % err)
+        bad.append('released gradient differs from (sum_i min(1,C/(|g_i|+1e-6)) g_i + z)/B%s by rel. %.3g' % (' (B x %d accumulated batches; none for sum)' % n_acc if n_acc > 1 else '', err))
     return {'bad': bad, 'err': err,
             'grads': [[[float(v) for v in x] for x in gs] for gs in tg], 'factors': factors, 'C': C}
 
